@@ -143,7 +143,9 @@ SESSION_MODELS = [
     {"name": "session-configs", "module": "MCSession", "workers": 14, "timeout": 3000,
      "consts": dict(SESSION_CONSTS, Universe="<- U1", Configs="<- CfgAll"), "invariants": SESSION_INV, "tiers": ("thorough",)},
     {"name": "session-two-authors", "module": "MCSession", "workers": 14, "timeout": 3000,
-     "consts": dict(SESSION_CONSTS, Universe="<- U2", Configs="<- Cfg21"), "invariants": SESSION_INV, "tiers": ("thorough",)},
+     # one of 6 shards of the ~280k initial pairs (the enumeration of initial states is single-threaded)
+     "consts": dict(SESSION_CONSTS, Universe="<- U2", Configs="<- Cfg21", Shards=6, Shard=1), "invariants": SESSION_INV,
+     "tiers": ("thorough",)},
     {"name": "session-wide", "module": "MCSession", "workers": 14, "timeout": 3000,
      "consts": dict(SESSION_CONSTS, Universe="<- U4", Configs="<- CfgW", MaxInit=8, MaxRounds=40), "invariants": SESSION_INV,
      "tiers": ("thorough",)},
@@ -304,7 +306,9 @@ PROPS["C14"] = {
             "enqueueing, FIFO service; implementation: seeded batches of 1-4 pipelined requests (17 request kinds, 2 documents, "
             "2 cloned handles) on one real actor thread with memory and file stores, store observed after shutdown",
     "assumptions": ["requests of one batch are sent sequentially on one FIFO channel (send order = service order)",
-                    "whether a refused drop of a multiply-opened document consumes a handle is left free (both accepted)"],
+                    "whether a refused drop of a multiply-opened document consumes a handle is left free (both accepted)",
+                    "concurrent runs: two OS threads issue 3-6 requests each on cloned handles; TLC searches for an interleaving "
+                    "(respecting each client's own order) that explains every reply; real-time order between clients is not used"],
     "models": [
         {"name": "actor", "module": "MCActor", "workers": 12, "timeout": 1500, "consts": ACTOR_CONSTS,
          "invariants": ["AllRepliesOk", "HandlesPositive", "CountsMatch", "AckedHeld"]},
@@ -316,7 +320,7 @@ PROPS["C14"] = {
         {"base": "actor", "flip": {"GateOpen": "FALSE"}},
     ],
     "drives": [
-        {"name": "actor", "cmd": "actor", "args": {"n": {"quick": 120, "thorough": 4000}},
+        {"name": "actor", "cmd": "actor", "args": {"n": {"quick": 120, "thorough": 4000}, "conc": {"quick": 150, "thorough": 4000}},
          "trace_module": "ActorTrace",
          "trace_consts": dict(ENTRY, OpenCounts="TRUE", SyncSticky="TRUE", GateSync="TRUE", GateOpen="TRUE", Prop='"C14"'),
          "tv_timeout": 3000},
